@@ -143,7 +143,11 @@ fn make_case(ki: usize, position: usize, rot: usize, bad: &[Tok], label: String)
         prop: PROP.into(),
         kind: format!("{kind:?}/position{position}"),
         label,
-        files: vec![("f".into(), r.text.clone())],
+        files: if (bad.len() + position + rot) % 4 == 0 {
+            vec![("f".into(), r.text.clone()), ("twin".into(), r.text.clone())]
+        } else {
+            vec![("f".into(), r.text.clone())]
+        },
         expect: json!({
             "siblings": siblings,
             "extent": [r.start(bad_first), r.end(bad_last)],
@@ -162,6 +166,30 @@ pub fn check_case(case: &Case) -> CheckResult {
         }
     };
     let pr = &obs.parse[&case.files[0].0];
+    // after validation the Error is still there - also when the same text sits in the parser a
+    // second time under another id (every fourth case): both files get the same result
+    match obs.valid.get(&case.files[0].0) {
+        Some(v) => {
+            if !v.diagnostics.iter().any(is_error) {
+                r.fail("no Error left for the malformed member after validation".into());
+            }
+            if let Some((gid, _)) = case.files.get(1) {
+                match obs.valid.get(gid) {
+                    Some(g) => {
+                        if g.diagnostics != v.diagnostics || g.ast != v.ast {
+                            r.fail(format!(
+                                "the same text under a second id ({gid}) comes back with another result: {:?} vs {:?}",
+                                g.diagnostics.iter().map(super::diag_str).collect::<Vec<_>>(),
+                                v.diagnostics.iter().map(super::diag_str).collect::<Vec<_>>()
+                            ));
+                        }
+                    }
+                    None => r.fail(format!("no result for the second id {gid}")),
+                }
+            }
+        }
+        None => r.fail("no validated result for the file".into()),
+    }
     let lo = case.expect["extent"][0].as_u64().unwrap_or(0) as usize;
     let hi = case.expect["extent"][1].as_u64().unwrap_or(0) as usize;
     let want: Vec<String> = serde_json::from_value(case.expect["siblings"].clone()).unwrap_or_default();
